@@ -10,6 +10,9 @@ import (
 )
 
 var debugCache = os.Getenv("VRT_DEBUG_CACHE") != ""
+
+// maxSeen bounds the state cache of one scenario (about 0.6 GiB per worker process).
+const maxSeen = 4_000_000
 var debugIns = map[uint64]string{}
 
 // Budget bounds the deviations from the default execution: P preemptions,
@@ -266,7 +269,9 @@ func (e *Explorer) explore(prefix []int, used Budget) bool {
 				}
 				break
 			}
-			e.seen[p.FP] = append(e.seen[p.FP], rem)
+			if len(e.seen) < maxSeen { // a full cache only stops growing: less pruning, never less coverage
+				e.seen[p.FP] = append(e.seen[p.FP], rem)
+			}
 			if debugCache {
 				debugIns[p.FP] = fmt.Sprintf("%v@%d rem=%s", choicesOf(&o), i, rem)
 			}
